@@ -13,7 +13,7 @@ from sim.profiles import base
 from sim.profiles.base import BaseProfile, BaseCtx, URL
 from sim.world import canon
 
-PREFIXES = ["10.1.0.0/16", "10.2.3.0/24", "192.168.0.0/17", "172.16.5.4/32", "100.64.0.0/10", "10.1.2.0/23"]
+PREFIXES = ["10.1.0.0/16", "10.2.3.0/24", "192.168.0.0/17", "172.16.5.4/32", "100.64.0.0/10", "10.1.2.0/23", "0.0.0.0/0"]
 ATTRSETS = [
     {"origin": 0, "path": [64999], "next_hop": "10.0.0.2", "med": 10},
     {"origin": 1, "path": [64999, 100], "next_hop": "10.0.0.2", "med": 20},
@@ -256,8 +256,12 @@ class RibCtx(BaseCtx):
         i = rng.randrange(3)
         if rng.chance(0.35):
             return self.rest_mixed(rng, {"attr": {"15": {"afi_safi": [1, 128], "withdraw": [VPN_JSON[i]]}}})
+        route = dict(VPN_JSON[i])
+        if rng.chance(0.3):
+            route["label"] = [rng.pick([25, 26, 27, 1000])]     # the same route re-announced with another label
+            self.stats["gen:rest_vpn_other_label"] += 1
         return self.rest_mixed(rng, {"attr": {"1": 0, "2": [], "5": 100, "16": rng.pick(VPN_RT_JSON),
-                                              "14": {"afi_safi": [1, 128], "nexthop": {"rd": "0:0", "str": "2.2.2.2"}, "nlri": [VPN_JSON[i]]}}})
+                                              "14": {"afi_safi": [1, 128], "nexthop": {"rd": "0:0", "str": "2.2.2.2"}, "nlri": [route]}}})
 
     def rest_mixed(self, rng, body):
         """One request that also withdraws classic IPv4 routes next to the MP attribute (RFC 4760 allows it)."""
@@ -376,8 +380,13 @@ class RibCtx(BaseCtx):
             d = rp.decode_update(f.body, self.as4)
         except ValueError:
             d = None
-        if d is None or any(h[0] == "on_update_error" for h in handler):
-            # an erroneous UPDATE (reported as such, or not decodable by the reference either): nothing of it
+        if d is not None and any(h[0] == "on_update_error" for h in handler):
+            # the reference decoder takes this UPDATE, the agent calls it malformed: its routes are lost
+            raise Violation("C19", "rib-in", "good-update-reported-malformed",
+                            "an UPDATE the reference decoder accepts (withdrawn %s, nlri %s) was reported as malformed and "
+                            "not applied" % (d["withdrawn"], d["nlri"]))
+        if d is None:
+            # an erroneous UPDATE (not decodable by the reference either): nothing of it
             # is applied - tables and counters stay as they are
             self.stats["rx_erroneous_update"] += 1
             rib = p.adj_rib_in.get("ipv4", {})
